@@ -10,6 +10,9 @@ XSu0 == [ k \in 1..8 |-> 32 * (k - 1) ]
 \* a sliver column (1 : 100) and a 1000 : 1 row
 XSsliver == <<-32, 0, 32, 3232, 3264, 3296, 3328, 3360>>
 YSflat == <<-32, 0, 32000, 32032, 32064, 32096, 32128, 32160>>
+\* thin overlaps: a column of width 1 between lines 1 and 2 of a die 30000 wide, a row of height 10 of a die 20000 high
+XSthin == <<0, 10000, 10001, 20000, 30000>>
+YSthin == <<0, 10, 10000, 20000>>
 SplitsQ == { <<3, 2, 1>>, <<3, 2, 5>>, <<2, 1, 7>> }
 SplitsT == { <<71, 50, 1>>, <<71, 50, 9>>, <<3, 2, 4>>, <<3, 2, 13>>, <<7, 4, 6>>, <<2, 1, 7>>, <<3, 1, 10>> }
 GridsQ == { <<2, 3>>, <<1, 1>> }
